@@ -29,7 +29,8 @@ def run(c):
     c.rule("C13.R3", "apply_json_fragment does not mutate old/new_fragment, apply_acl_filters does not mutate content, "
                      "make_patch mutates neither argument (aliases followed; copy.deepcopy is the shield)")
     c.rule("C13.R4", "in apply_json_fragment every write (pointer.set) and deletion (pop/del) on the result document uses "
-                     "a pointer that derives from _resolve_json_pointers(<the ACL item of the loop>, ...)")
+                     "a pointer that derives from _resolve_json_pointers(<the ACL item of the loop>, ...); every ACL item runs both steps "
+                     "(no early continue/break/return in the per-item iteration)")
     c.count("modules", 1)
 
     # ---------------- R1
@@ -163,3 +164,15 @@ def run(c):
                     ok = any(call_name(x).endswith("_resolve_json_pointers") for x in ocalls)
                     c.check("C13.R4", ok, repo.loc(m, st), "apply_json_fragment/del", f"`{norm(st)}` not confined to ACL-resolved pointers", key_text="del")
     c.floor("C13.R4", "write/delete sites", sites, 2)
+    # every ACL item goes through both steps: nothing leaves the iteration early
+    from sa.flow import GuardMap
+    from sa import guards as G
+    gm = GuardMap(f)
+    for n in walk_no_nested(acl_loops[0]):
+        if isinstance(n, (ast.Continue, ast.Break, ast.Return)) and gm.in_loop(n) and gm.in_loop(n)[-1] is acl_loops[0]:
+            c.violated("C13.R4", repo.loc(m, n), "apply_json_fragment/acl-loop-exit",
+                       f"`{norm(n)}` under [{G.show(gm.formula(n))}] leaves the iteration of an ACL item early: the write or the "
+                       "delete-what-the-fragment-lacks step is skipped for that pattern", key_text="loop-exit")
+            break
+    else:
+        c.holds("C13.R4", repo.loc(m, acl_loops[0]), "apply_json_fragment/acl-loop-complete", "no early exit from the per-ACL-item iteration")
